@@ -70,9 +70,12 @@ Step ==
                                 \cup (IF t.res = "ok" /\ t.kind \in {"remove", "update"} /\ t.id \notin wlive \cup wmaybe THEN {<<l, "AbsentItemAcked">>} ELSE {})
                                 \cup (IF t.res = "exists" /\ t.id \notin wlive \cup wmaybe THEN {<<l, "SpuriousExists">>} ELSE {})
                                 \cup (IF t.res = "notfound" /\ t.id \in wlive \ wmaybe THEN {<<l, "SpuriousNotFound">>} ELSE {})
+                                \* the serving node talked to a peer through a connection it had closed itself (C20: reachability)
+                                \cup (IF t.closed = 1 THEN {<<l, "PeerUnreachable">>} ELSE {})
                            /\ UNCHANGED <<cat, mem, maybe, ref, order>>
        [] t.ev = "found" -> LET got == {t.ids[j] : j \in 1..Len(t.ids)} IN
-                            /\ viol' = viol \cup (IF t.err # "" THEN {<<l, "SearchUnavailable">>}
+                            /\ viol' = viol \cup (IF t.closed = 1 THEN {<<l, "PeerUnreachable">>} ELSE {})
+                                            \cup (IF t.err # "" THEN {<<l, "SearchUnavailable">>}
                                                    ELSE (IF (wlive \ wmaybe) \subseteq got THEN {} ELSE {<<l, "AckedLostOnRestart">>})
                                                         \cup (IF got \subseteq wlive \cup wmaybe THEN {} ELSE {<<l, "GhostAfterRestart">>})
                                                         \* a search for the 5 nearest returns the 5 nearest of everything the full search
